@@ -484,6 +484,51 @@ def reuses_bound_index(sub):
     return bool(mine & (index_names_inside(a) - set(a.fi)))
 
 
+def guard_check(ctx, recipe, pool, points, mapping):
+    """Guarded conditionals (the branch that is not taken has no value, by construction): where the taken branch alone
+    evaluates, the conditional must evaluate too - whatever is raised then comes from evaluating the other branch."""
+    for g in D.subrecipes(recipe):
+        if g.op != "conditional" or not isinstance(g.a, str) or not g.a.startswith("guard") or g.fi or g.shape:
+            continue
+        taken = g.kids[1] if g.a.endswith("true") else g.kids[2]
+        try:
+            with warnings.catch_warnings():
+                warnings.simplefilter("ignore")
+                B_ = Builder(pool)
+                e_g, e_t = B_.b(g), B_.b(taken)
+        except Exception:
+            continue
+        if not isinstance(e_g, Expr) or not isinstance(e_t, Expr) or D.ops_of(g) & {o for o in D.ops_of(g) if o.split(":")[0] in DERIV_OPS}:
+            continue
+        for x, variant in points:
+            xarg = xarg_of(x, variant)
+            try:
+                with warnings.catch_warnings():
+                    warnings.simplefilter("ignore")
+                    vt = as_number(e_t(xarg, mapping) if mapping else e_t(xarg))[0]
+            except Exception:
+                continue
+            ctx.count("guarded_conditionals_checked")
+            try:
+                with warnings.catch_warnings():
+                    warnings.simplefilter("ignore")
+                    vg = as_number(e_g(xarg, mapping) if mapping else e_g(xarg))[0]
+            except Symbolic:
+                continue
+            except Exception as ex:
+                ctx.violation(f"C24/conditional-evaluates-the-branch-not-taken/{type(ex).__name__}",
+                              f"a guarded conditional raises {type(ex).__name__}: {str(ex)[:80]} at x={x} although the branch that is taken evaluates to {vt!r} "
+                              "(the branch that is not taken has no value there)",
+                              {"conditional": D.show(g, 600), "expr": str(e_g)[:600], "taken_branch": str(e_t)[:300]})
+                return True
+            if abs(vg - vt) > 1e-9 * max(1.0, abs(vt)):
+                ctx.violation("C24/conditional-evaluates-the-branch-not-taken/value", f"a guarded conditional evaluates to {vg!r}, its taken branch to {vt!r} at x={x}",
+                              {"conditional": D.show(g, 600), "expr": str(e_g)[:600]})
+                return True
+            ctx.count("guarded_conditionals_held")
+    return False
+
+
 def case(ctx, i, rng):
     d = rng.choice([1, 2, 2, 3, 3])
     cplx = rng.random() < 0.3
@@ -533,6 +578,8 @@ def case(ctx, i, rng):
     mapping = pool.mapping(no_derivatives=not has_deriv)
     used_styles = set(pool.used_styles)
     kinds = ["call", "evaluate", "direct", "whole"]
+    if guard_check(ctx, recipe, pool, points, mapping):
+        return
     res, expanded = observe(ctx, recipe, expr, pool, points, mapping, rng, kinds)
     tally = {}
     for v, info in res:
